@@ -93,6 +93,10 @@ def constructed(rng):
 
     C, V = E.ConstantExpression, E.VariableExpression
     yield E.AbsExpression(E.SubtractExpression(V("x"), C(5)))
+    yield E.PowerExpression(E.AbsExpression(C(-5)), C(100))
+    yield E.MultiplyExpression(E.AbsExpression(E.SubtractExpression(V("x"), V("y"))), E.PowerExpression(C(2), C(62)))
+    yield E.PowerExpression(E.AbsExpression(V("x")), C(3))
+    yield E.AddExpression(E.AbsExpression(C(-7)), E.FactorialExpression(C(25)))
     yield E.AddExpression(C(np.float64(2.5)), E.MultiplyExpression(C(np.float64(0.5)), V("x")))
     yield E.PowerExpression(C(np.float64(2.0)), V("x"))
     yield E.NegateExpression(E.NegateExpression(V("x")))
